@@ -1118,6 +1118,11 @@ def main(run: core.Run) -> None:
                     return v if isinstance(v, int) and not isinstance(v, bool) and v >= 1000 and v < 900000 and (v in args or v in kwargs.values()) else dtok.get(k, 899999)
                 exp = "ok | " + " ".join(str(x) for x in ins) + " | " + " ".join(f"{enc(k)}={tokv(k, v)}" for k, v in attrs.items())
                 stats["sep_ok_fill" if fill else "sep_ok_nofill"] += 1
+                if any(x is None for x in ins):
+                    stats["sep_inner_placeholder"] += 1  # an omitted optional input before one given by keyword (b7afd5e)
+                if ins and ins[-1] is None:
+                    oracle_failures.append((f"{sch.name}({sch.since_version})", "separate_input_attributes_from_arguments",
+                                            [f"inputs end in a None placeholder: {ins} for args={args} kwargs={kwargs}"]))
                 if not fill:
                     # the property's statement on the real function: nothing but written values
                     if any(not (isinstance(v, int) and (v in args or kwargs.get(k) == v)) for k, v in attrs.items()):
@@ -1208,6 +1213,128 @@ def main(run: core.Run) -> None:
             translation_failures.append((cname, op, f"eager {[np.asarray(x).reshape(-1)[:4].tolist() for x in e]} vs translated graph {[x.reshape(-1)[:4].tolist() for x in g]}"))
     scriptgen.release(modname)
     lap("translation vs eager")
+    # ---------------- T10: the exported model means the opset CLASS used in the body
+    # (a) exported with an explicit `opset_version` different from the class (documented: only "if it cannot be inferred");
+    # (b) two opset classes of one domain mixed in one function (the converter refuses; if it translates, every node must
+    #     still mean what its class binds).  Version-sensitive operators, so a re-stamped node computes something else.
+    VS = [  # (operator, class version, extra call arguments, input shape)
+        ("Softmax", 11, "axis=1", (2, 3, 4)), ("LogSoftmax", 11, "axis=1", (2, 3, 4)), ("Hardmax", 11, "axis=1", (2, 3, 4)),
+        ("Softmax", 11, "", (2, 3, 4)), ("LogSoftmax", 11, "", (2, 3, 4)),
+        ("Softmax", 13, "axis=1", (2, 3, 4)), ("LogSoftmax", 13, "axis=1", (2, 3, 4)), ("Hardmax", 13, "axis=1", (2, 3, 4)),
+        ("Softmax", 1, "axis=1", (2, 3, 4)),
+        ("ReduceSum", 11, "axes=[1], keepdims=0", (2, 3, 4)), ("ReduceSum", 1, "axes=[1]", (2, 3, 4)),
+        ("Squeeze", 11, "axes=[0]", (1, 3, 4)), ("Unsqueeze", 11, "axes=[0]", (3, 4)),
+        ("ReduceMean", 13, "axes=[1]", (2, 3, 4)), ("Relu", 13, "", (2, 3)), ("Relu", 6, "", (2, 3)),
+    ]
+    if run.tier == "thorough":
+        VS += [("ReduceMax", 13, "axes=[1]", (2, 3, 4)), ("ReduceProd", 11, "axes=[2]", (2, 3, 4)), ("Softmax", 13, "", (2, 3, 4)),
+               ("Hardmax", 11, "", (2, 3, 4)), ("ReduceL2", 13, "axes=[0]", (2, 3, 4)), ("Squeeze", 1, "axes=[0]", (1, 3, 4))]
+    t10_bodies, t10_meta = [], []
+    used_versions = sorted({v for _, v, _, _ in VS} | {18})
+
+    def _shape_ann(shape):
+        return f"FLOAT[{','.join(map(str, shape))}]"
+
+    for k, (op, N, extra, shape) in enumerate(VS):
+        call = "x" + (", " + extra if extra else "")
+        # (a) plain single-class function; exported below with several explicit versions, and once via the decorator
+        name = f"v{k}"
+        t10_bodies.append((name, f"@script(default_opset=opset{N})\ndef {name}(x: {_shape_ann(shape)}):\n    return opset{N}.{op}({call})\n"))
+        t10_meta.append((name, "explicit", op, N, shape, None))
+        other = 13 if N != 13 else 11
+        named = f"d{k}"
+        t10_bodies.append((named, f"@script(default_opset=opset{N}, opset_version={other})\ndef {named}(x: {_shape_ann(shape)}):\n    return opset{N}.{op}({call})\n"))
+        t10_meta.append((named, "decorator", op, N, shape, other))
+        # (b) mixed with opset18.Identity, both orders
+        if N != 18:
+            m1 = f"m{k}"
+            t10_bodies.append((m1, f"@script(default_opset=opset18)\ndef {m1}(x: {_shape_ann(shape)}):\n    y = opset18.Identity(x)\n    return opset{N}.{op}({call.replace('x', 'y', 1)})\n"))
+            t10_meta.append((m1, "mixed", op, N, shape, None))
+            m2 = f"n{k}"
+            t10_bodies.append((m2, f"@script(default_opset=opset{N})\ndef {m2}(x: {_shape_ann(shape)}):\n    y = opset{N}.{op}({call})\n    return opset18.Identity(y)\n"))
+            t10_meta.append((m2, "mixed", op, N, shape, None))
+    # the documented use of the option: no default-domain operator in the body
+    t10_bodies.append(("u0", "@script(default_opset=opset_ai_onnx_ml3)\ndef u0(x: FLOAT[2,3]):\n    return opset_ai_onnx_ml3.Scaler(x)\n"))
+    t10_meta.append(("u0", "option-applies", "Scaler", 3, (2, 3), None))
+    import warnings as _warnings
+
+    with _warnings.catch_warnings():
+        _warnings.simplefilter("ignore")
+        fn10, err10, mod10 = scriptgen.compile_functions(
+            t10_bodies, header_extra="from onnxscript.onnx_opset import opset_ai_onnx_ml3, " + ", ".join(f"opset{v}" for v in used_versions) + "\n")
+
+    def _since(op, ver):
+        sc = real.get_schema(op, ver, "")
+        return None if sc is None else int(sc.since_version)
+
+    def _judge(label, name, op, N, shape, mp, f):
+        """exported model `mp` of function `f` whose body used OpsetN.op: import vs class, numbers vs eager"""
+        x = _x(shape, seed=3)
+        imp = {o.domain: o.version for o in mp.opset_import}.get("")
+        nodes = [nd for nd in mp.graph.node if nd.op_type == op and nd.domain == ""]
+        stats["t10_models"] += 1
+        bad_import = bool(nodes) and _since(op, imp) != _since(op, N)
+        detail_num = None
+        try:
+            with _warnings.catch_warnings():
+                _warnings.simplefilter("ignore")
+                e = as_list(f(x))
+        except Exception as ex:
+            e = None
+            stats["t10_eager_raises"] += 1
+        try:
+            so = _ort.SessionOptions()
+            so.log_severity_level = 4
+            so.graph_optimization_level = _ort.GraphOptimizationLevel.ORT_DISABLE_ALL
+            g = _ort.InferenceSession(mp.SerializeToString(), so, providers=["CPUExecutionProvider"]).run(None, {"x": x})
+        except Exception as ex:
+            g = None
+            stats["t10_model_not_runnable"] += 1
+        if e is not None and g is not None:
+            if arrays_equal(e, g):
+                stats["t10_equal"] += 1
+            else:
+                md = float(np.max(np.abs(np.asarray(e[0], dtype=np.float64) - np.asarray(g[0], dtype=np.float64)))) if np.asarray(e[0]).shape == np.asarray(g[0]).shape else float("nan")
+                detail_num = f"eager {np.asarray(e[0]).reshape(-1)[:4].tolist()} vs exported model on onnxruntime {np.asarray(g[0]).reshape(-1)[:4].tolist()} (max abs diff {md:.3g}, shapes {np.asarray(e[0]).shape}/{np.asarray(g[0]).shape})"
+        if bad_import or detail_num:
+            what = f"{label}: body uses opset{N}.{op} = {op}({_since(op, N)}); exported model imports opset {imp}, where {op} means {op}({_since(op, imp)})"
+            if detail_num:
+                what += "; " + detail_num
+            elif e is not None and g is None:
+                what += "; eager runs, the exported model is not loadable"
+            translation_failures.append((f"Opset{N}", op, what + f"; input float32{list(shape)} seed 3"))
+        else:
+            stats["t10_import_means_class"] += 1
+
+    for name, kind, op, N, shape, other in t10_meta:
+        if name in err10:
+            stats[f"t10_{kind}_refused"] += 1
+            if kind in ("explicit", "decorator", "option-applies"):
+                tie_broken.append(f"T10 script {name} ({kind}, opset{N}.{op}) refused: {err10[name]}")
+            continue
+        f = fn10[name]
+        try:
+            if kind == "explicit":
+                for V in sorted({11, 13, 18} - {N}):
+                    _judge(f"to_model_proto(opset_version={V})", name, op, N, shape, f.to_model_proto(opset_version=V), f)
+                    stats["t10_explicit_version_exports"] += 1
+                _judge("to_model_proto()", name, op, N, shape, f.to_model_proto(), f)
+            elif kind == "decorator":
+                _judge(f"@script(opset_version={other})", name, op, N, shape, f.to_model_proto(), f)
+                stats["t10_decorator_version_exports"] += 1
+            elif kind == "mixed":
+                stats["t10_mixed_translated"] += 1
+                _judge("two opset classes in one function (opset18.Identity + this)", name, op, N, shape, f.to_model_proto(), f)
+            else:
+                mp = f.to_model_proto(opset_version=15)
+                imp = {o.domain: o.version for o in mp.opset_import}
+                stats["t10_option_applies"] += 1
+                if imp.get("") != 15 or imp.get("ai.onnx.ml") != 3:
+                    translation_failures.append(("Opset_ai_onnx_ml3", "Scaler", f"no default-domain operator in the body, to_model_proto(opset_version=15) imports {imp}"))
+        except Exception as ex:
+            translation_failures.append((f"Opset{N}", op, f"{kind}: exporting {name} raised {type(ex).__name__}: {str(ex)[:200]}"))
+    scriptgen.release(mod10)
+    lap("exported model means the class used (explicit opset_version, mixed classes)")
     # ---------------- T6: the generator in /repo/opgen, run in-process, regenerates exactly these classes
     generator_failures: list[tuple[str, str, list[str]]] = []
     generator_stale: list[str] = []
@@ -1282,7 +1409,7 @@ def main(run: core.Run) -> None:
     if translation_failures:
         cn, n, detail = translation_failures[0]
         run.violation({"cls": cn, "op": n, "kind": "translation", "detail": detail, "others": translation_failures[1:10]},
-                      f"{cn}.{n} in a script with defaults left out: {detail}")
+                      f"{cn}.{n} in a script: {detail}")
         reported = True
     if generator_failures:
         cn, n, why = generator_failures[0]
@@ -1341,8 +1468,9 @@ def main(run: core.Run) -> None:
                     "hist_getitem_miss", "hist_contains_hit", "hist_contains_miss", "hist_getattr_hit", "hist_getattr_miss",
                     "hist_new_generated", "hist_new_UserOpset", "hist_domain_ai.onnx.ml", "hist_domain_ai.onnx.preview",
                     "hist_domain_my.domain", "executed_trim_yes", "executed_trim_no", "sep_ok_nofill", "sep_ok_fill",
-                    "sep_err_missingRequired", "sep_err_unexpectedKw", "sep_err_tooManyArgs", "translation_equal_default",
-                    "translation_equal_ai.onnx.ml", "deprecated_stub_raises", "cell_stub", "prep_trimmed_0", "prep_trimmed_1", "prep_trimmed_3", "cell_SM", "cell_--"]
+                    "sep_inner_placeholder", "sep_err_missingRequired", "sep_err_unexpectedKw", "sep_err_tooManyArgs", "translation_equal_default",
+                    "translation_equal_ai.onnx.ml", "t10_explicit_version_exports", "t10_decorator_version_exports", "t10_equal",
+                    "t10_import_means_class", "t10_mixed_refused", "t10_option_applies", "deprecated_stub_raises", "cell_stub", "prep_trimmed_0", "prep_trimmed_1", "prep_trimmed_3", "cell_SM", "cell_--"]
         zero = [k for k in required if not stats[k]]
         # a zero counter with a clean verdict means the generator degenerated; with a violation already printed it is a consequence
         if zero and not run.violations:
